@@ -59,6 +59,12 @@ def filter_output(input_fits=None, output_good='auto', output_bad='auto', chi=No
 
     for info in fin:
 
+        # (a source for which no fit was kept, e.g. by output_format=('C', x)
+        # of fit(), has no best chi^2 to be below a threshold)
+        if info.n_fits == 0:
+            fout_bad.write(info)
+            continue
+
         bestchi = info.chi2[0]
         bestcpd = info.chi2[0] / float(info.source.n_data)
 
